@@ -93,6 +93,7 @@ class Stats(object):
         self.first_failure_at = None
         self.skipped_wall = 0
         self.errors = []
+        self.known_cases = {}
 
     def record(self, case, out, keep_samples=2):
         self.evaluations += 1
@@ -101,6 +102,11 @@ class Stats(object):
             self.labels[lab] += 1
         if out.status == "known":
             self.known[out.kf] += 1
+            if os.environ.get("VF_SAVE_KNOWN"):
+                size = len(json.dumps(case, default=str))
+                cur = self.known_cases.get(out.kf)
+                if cur is None or size < cur[0]:
+                    self.known_cases[out.kf] = (size, case, out.detail)
         if out.nontrivial and out.status != "discard":
             self.nontrivial.add(case_hash(case))
             if len(self.samples) < keep_samples:
@@ -116,7 +122,8 @@ class Stats(object):
     def export(self):
         return dict(evaluations=self.evaluations, status=dict(self.status), labels=dict(self.labels),
                     known=dict(self.known), nontrivial=self.nontrivial, samples=self.samples,
-                    failures=self.failures, skipped_wall=self.skipped_wall, errors=self.errors)
+                    failures=self.failures, skipped_wall=self.skipped_wall, errors=self.errors,
+                    known_cases=self.known_cases)
 
 
 class _Violation(Exception):
@@ -189,7 +196,7 @@ def _worker(args):
 
 def _merge(results):
     tot = dict(evaluations=0, status=Counter(), labels=Counter(), known=Counter(), nontrivial=set(), samples=[],
-               failures=[], skipped_wall=0, errors=[])
+               failures=[], skipped_wall=0, errors=[], known_cases={})
     for r in results:
         tot["evaluations"] += r["evaluations"]
         tot["status"].update(r["status"])
@@ -200,6 +207,9 @@ def _merge(results):
         tot["failures"].extend(r["failures"])
         tot["skipped_wall"] += r["skipped_wall"]
         tot["errors"].extend(r["errors"])
+        for k, v in r.get("known_cases", {}).items():
+            if k not in tot["known_cases"] or v[0] < tot["known_cases"][k][0]:
+                tot["known_cases"][k] = v
     tot["failures"].sort(key=lambda x: x[0])
     return tot
 
@@ -323,6 +333,8 @@ def run(pid, tier="quick", seed=1, replay=None):
             results = pool.map(_worker, jobs, chunksize=1)
     tot = _merge(results)
 
+    for k, (size, kcase, kdetail) in tot["known_cases"].items():
+        write_replay(pid, kcase, kdetail, tier, seed, prefix="CAND-" + k)
     if tot["errors"]:
         print("HARNESS-ERROR in %s:\n%s" % (pid, "\n".join(tot["errors"][:3])))
         return 2
